@@ -151,7 +151,10 @@ def fixed_cases(tier):
          [['d', [], {'$repeat': {'x': 2, 'y': 2}, 'v': '$"{$repeat:x}{$repeat:y}"'}]],
          [['d', [], {'width': '$"{$repeat.x}"'}]],
          [['d', [], {'o1': {'$output': True, 'a': 1}, 'o2': {'$output': True, 'b': 2}, 'o3': [{'$output': True}, 1]}]],
-         [['d', [], {'tier': 'web', 'region': 'eu', 'm': {'$"{tier}-{region}"': 1, 'web-eu': 2, 'zz': 3}}]]]
+         [['d', [], {'tier': 'web', 'region': 'eu', 'm': {'$"{tier}-{region}"': 1, 'web-eu': 2, 'zz': 3}}]],
+         # two directives in one map: which one fires must not depend on the iteration order of the map
+         [['d', [], {'t': {'$decode': 'json', '$value': '{"a": 1}', '$encode': 'yaml'}}]],
+         [['d', [], {'$encode': 'json', '$decode': 'json', '$value': '[1, 2]'}]]]
     for p in P:
         for q in P:
             out.append({'src': 'fixed', 'prog': p, 'other': q, 'fmt': 'json', 'fresh': True})
@@ -242,6 +245,15 @@ def check_case(ctx, case):
                 with open(pth, 'w') as f:
                     f.write('{"toplayer": %d}' % gi)
             paths.append(pth)
+        # a layer that overrides BELOW the top level of its parent file, evaluated repeatedly in this process: what the parent file
+        # decodes to must not be altered by the evaluation (content unique per case, so that no earlier case has loaded it)
+        nonce = hashlib.sha256(text.encode()).hexdigest()[:12]
+        for tag in ('p', 'q'):
+            with open(os.path.join(fd, 'n%s.yaml' % tag), 'w') as f:
+                f.write('nonce: %s%s\ncfg:\n  v: 1\n  l: [1, 2]\n  m: {k: 1, j: [0]}\n' % (tag, nonce))
+            with open(os.path.join(fd, 'n%s.top.json' % tag), 'w') as f:
+                f.write('{"cfg": {"v": 2, "l": [3], "m": {"k": 2, "j": [1]}}}')
+            paths.append(os.path.join(fd, 'n%s.top.json' % tag))
         fcases = [[{'op': 'merge_layers', 'path': pth}, {'op': 'output', 'format': fmt}] for pth in paths]
         try:
             resp3 = w.call([{'op': 'concurrent', 'cases': fcases, 'repeat': R}], budget=0, timeout=300)
